@@ -229,9 +229,16 @@ def side_case(seed):
                 tags['which'] = 'hybrid'
                 sol = ode.tdvp(H, x0, h, steps, threshold=rng.choice([1e-12, 1e-2]), max_rank=maxr)
             else:
+                if n < 2:
+                    return ret(None, skipped='n<2')
                 x1 = (1 / x0.norm()) * x0
                 snap = snapshot([H, x1])
-                sol = [x1, ode.krylov(H, x1, rng.randint(2, 4), h, max_rank=maxr)]
+                try:
+                    # a Krylov dimension beyond the dimension of the invariant subspace of x1 breaks the Lanczos recurrence down
+                    # (zero residual -> division by zero / orthonormalisation of the zero tensor, the latter being finding F14 of C04)
+                    sol = [x1, ode.krylov(H, x1, min(rng.randint(2, 4), n), h, max_rank=maxr)]
+                except (ZeroDivisionError, FloatingPointError, IndexError) as e:
+                    return ret(None, skipped='lanczos breakdown: %r' % (e,))
                 x0, steps = x1, 1
         except IndexError as e:
             if drv == 'tdvp':
